@@ -210,6 +210,7 @@ class _Sim(object):
         self.converter_calls = 0
         self.nested_texts = {}
         self.nested_fail = None
+        self._cleanup_ctx = {}
         self.initial_root_handlers = None
         self.harness_errors = []
         self.recorders = []
@@ -463,6 +464,9 @@ class _Sim(object):
                 "site": list(getattr(self, "_act_site", [None, None]))}
         self.cleanups[cid] = info
         sim = self
+        if act.get("scoped"):
+            info["scoped"] = True
+            self._cleanup_ctx[cid] = context
 
         def make_plain():
             def cleanup_func(*args, **kwargs):
@@ -547,6 +551,11 @@ class _Sim(object):
         self.stack.append(("cleanup", cid))
         try:
             self.probe(ev, None)
+            if info.get("scoped") and cid in self._cleanup_ctx:
+                from behave.runner import scoped_context_layer
+                with scoped_context_layer(self._cleanup_ctx[cid], layer="in-cleanup"):
+                    pass
+                self.fire("cleanup_opens_context_layer")
             if info.get("raises"):
                 self.fire("cleanup_raises")
                 ev["raised"] = info["raises"]
